@@ -1057,6 +1057,41 @@ fn parse_punctuated_nested_meta(
     Ok(())
 }
 
+/// Verification hook: [`get_meta_info()`] as plain data. Compiled only with the
+/// `jeltef_derive_more_verif` cargo feature; never part of a normal build.
+#[cfg(feature = "jeltef_derive_more_verif")]
+pub(crate) mod verif_hooks {
+    /// Runs [`super::get_meta_info()`] on the attributes of `struct S;` preceded by `attrs_src`
+    /// and reports the seven flags as `t`/`f`/`-`, or the error message.
+    pub(crate) fn meta_info(
+        trait_attr: &str,
+        attrs_src: &str,
+        allowed: &[&str],
+    ) -> Result<String, String> {
+        let item: syn::DeriveInput =
+            syn::parse_str(&format!("{attrs_src} struct S;")).map_err(|e| format!("syn {e}"))?;
+        let info = super::get_meta_info(trait_attr, &item.attrs, allowed)
+            .map_err(|e| e.to_string())?;
+        let f = |v: Option<bool>| match v {
+            Some(true) => 't',
+            Some(false) => 'f',
+            None => '-',
+        };
+        Ok([
+            info.enabled,
+            info.forward,
+            info.owned,
+            info.ref_,
+            info.ref_mut,
+            info.source,
+            info.backtrace,
+        ]
+        .into_iter()
+        .map(f)
+        .collect())
+    }
+}
+
 // TODO: Remove this eventually, once all macros migrate to
 //       custom typed attributes parsing.
 /// Polyfill for [`syn`] 1.x AST.
